@@ -114,8 +114,6 @@ def execute(dev):
         cfg = inproc.base_config(**over)
         if kind in common.ACCEPTED_ERRORS and (common.error_predicted(glyphs, cfg) or a["fmt"] in ("cbdt", "sbix")):
             return [{"status": "rejected", "clause": "C07.build", "fp": f"rejected:{a['fmt']}:{kind}"}]
-        if "picosvg" in a["fmt"] and a["user"] in ("scale(1.1,0.8)",):
-            return [{"status": "rejected", "clause": "C07.build", "fp": "rejected:known-C02"}]
         import traceback
         return [bad("C07.build", f"{kind}: {e} :: {traceback.format_exc()[-300:]}")]
     problems = structure.check(data, want_names=a["keep"])
